@@ -117,6 +117,10 @@ def printer_rnd_hook(ctx):
     return printer_rnd(ctx, n=tier(ctx, 800, 8000), hook="plain")
 
 
+def routes_panic(ctx):
+    return printer_slice(ctx, "panic", module="MCRoutes", cfg="Routes.cfg")
+
+
 def routes_rnd(ctx):
     """the random slice through the four routes of C16 (MCRoutes)"""
     return printer_rnd(ctx, n=tier(ctx, 800, 8000), module="MCRoutes", cfg="Routes.cfg")
@@ -383,9 +387,9 @@ def c01(ctx):
     printer_slice(ctx, tier(ctx, "qbytes", "bytes"))
     printer_slice(ctx, tier(ctx, "qcompose", "compose"), module="MCCompose", cfg="Compose.cfg")
     printer_rnd(ctx)
+    printer_panic(ctx)       # F10: panics that cross a nested printer
     if ctx.tier == "thorough":
         printer_slice(ctx, "smoke")
-        printer_slice(ctx, "panic")
         printer_slice(ctx, "dir")
     long_payloads(ctx)
     universe_wellformed(ctx)
